@@ -379,7 +379,13 @@ pub fn mask_nulls(arr: &ArrayRef, mask: &NullBuffer) -> ArrayRef {
             let cols: Vec<ArrayRef> = a.columns().iter().map(|c| mask_nulls(c, &merged)).collect();
             Arc::new(StructArray::new(fs.clone(), cols, Some(merged)))
         }
-        DataType::Boolean => Arc::new(BooleanArray::new(arr.as_boolean().values().clone(), Some(merged))),
+        DataType::Boolean => {
+            // keep the bit offsets of values and validity equal (ArrayData::validate insists on it): rebuild both at 0
+            let a = arr.as_boolean();
+            let vals: Vec<bool> = (0..a.len()).map(|i| a.value(i)).collect();
+            let valid: Vec<bool> = (0..a.len()).map(|i| merged.is_valid(i)).collect();
+            Arc::new(BooleanArray::new(BooleanBuffer::from(vals), Some(NullBuffer::from(valid))))
+        }
         _ => {
             let d = arr.to_data();
             let d = d.into_builder().nulls(Some(merged)).build().unwrap();
